@@ -15,6 +15,7 @@ import random
 import engine
 import scen
 import steptie
+import tie_rulerun
 
 engine.use_repo()
 
@@ -27,8 +28,14 @@ RULE = ("one connector with ample power, 1-4 vehicles each with one standing per
         "non-trivial = at least one vehicle needs >= 2 steps; distinct = distinct (seed, index, strategy)")
 ASSUMPTIONS = ["tolerance at departure 1e-4 (the property's)",
                "feasible = full-power charging at min(curve, station) reaches the desired SoC within the standing steps "
-               "and the connector can supply all stations simultaneously"]
-UNPROVED = ["the run-level guarantee (SoC at departure over a whole standing period) has no theorem: it is decided by the "
+               "and the connector can supply all stations simultaneously",
+               "finding GRD1 is recognised by mechanism: vehicle type min_charging_power > 0 and shortfall at departure <= "
+               "min_charging_power * dt * efficiency / capacity (one step at the minimum power)"]
+UNPROVED = ["the run-level guarantee (SoC at departure over a whole standing period) is proved for greedy and balanced on the "
+            "ITERATED step model over an ideal-linear battery (constant curve below the desired SoC; Properties/C09_Run.lean: "
+            "C09_greedy_run_*, C09_balanced_run_*, tied over whole standing periods by the `rulerun` lines of this check) - "
+            "partial: no minimum-power cut-off, no stationary battery, price above the threshold, first vehicle or non-binding "
+            "headroom; everything else (varying curves, the other four strategies) is decided by the "
             "oracle on real runs; for balanced / distributed / balanced_market on varying curves and for peak_load_window "
             "under varying headroom it is false on the unchanged code (findings F2, P2)",
             "the plan theorems (C09_*) are per step / per plan on the strategy models over an ideal battery"]
@@ -52,6 +59,12 @@ def gen_cases(tier, seed):
             # vehicles sharing a binding connector; a V2G vehicle above its desired SoC next to a fixed load
             for st in SHARED_STRATS:
                 yield {"seed": seed, "i": i, "strategy": st, "pid": PID, "shared": True}
+        if i % 4 == 0:
+            # vehicles with a minimum charging power (0.2 x curve maximum, the ratio of the project's generators): greedy
+            # - also as the opportunity sub-strategy of distributed - stalls once the power still needed is below it
+            # (known finding GRD1, keyed by that mechanism in eval_case)
+            yield {"seed": seed, "i": i, "strategy": "greedy", "pid": PID, "minpower": True}
+            yield {"seed": seed, "i": i, "strategy": "distributed", "pid": PID, "minpower": True, "stype": "opps"}
 
 
 SHARED_STRATS = ["greedy", "balanced", "distributed"]
@@ -230,6 +243,13 @@ def steps_needed(vt, soc, desired, power_cap, interval_min, max_steps=4000):
 def build(case):
     if "scenario" in case:
         return case
+    if case.get("minpower"):
+        full = build({k: v for k, v in case.items() if k != "minpower"})
+        if full.get("scenario"):
+            for vt in full["scenario"]["components"]["vehicle_types"].values():
+                vt["min_charging_power"] = round(0.2 * max(p[1] for p in vt["charging_curve"]), 3)
+            full["meta"]["minpower"] = True
+        return full
     if case.get("profile"):
         return build_profile(case)
     if case.get("shared"):
@@ -245,6 +265,7 @@ def build(case):
     meta = {"vehicles": {}, "interval": interval}
     f = rng.choice([1.0, 1.05, 1.3, 2.0])
     stype = rng.choice(["deps", "deps", "opps"])
+    stype = case.get("stype", stype)
     total_station = 0.0
     horizon_steps = int(20 * 60 / interval)
     last_dep = 0
@@ -348,7 +369,9 @@ def eval_case(case):
         return {"lines": [], "impl": [], "violations": [], "nontrivial": False, "stats": ["empty"],
                 "replay_case": full}
     # greedy / balanced: the plan theorems are about the step model, which is tied to the real step here
-    r, tie_lines, tie_impl = steptie.run_with_tie(full, lambda: scen.run_real(full, timeout_s=90))
+    # ... and the step model iterated over a standing period (`rulerun`) to the same single real run
+    run, runtie = tie_rulerun.hook(full, lambda: scen.run_real(full, timeout_s=90))
+    r, tie_lines, tie_impl = steptie.run_with_tie(full, run)
     if r.get("step_i") is None or r.get("escaped") or r.get("timeout"):
         return {"lines": [], "impl": [], "violations": [], "nontrivial": False, "stats": stats + ["no_run"],
                 "replay_case": full}
@@ -366,24 +389,34 @@ def eval_case(case):
             continue
         cls = "constant_curve" if m["const_curve"] else "varying_curve"
         tight = "tight" if m["f"] <= 1.05 else "slack"
+        # finding GRD1, recognised by its mechanism: the vehicle type has a minimum charging power and the vehicle left
+        # within ONE minimum-power step of its desired SoC (greedy's request `power_needed` was below the minimum and
+        # clamp_power made it 0).  A larger shortfall, or any shortfall without a minimum power, stays unexplained.
+        vt = full["scenario"]["components"]["vehicle_types"][full["scenario"]["components"]["vehicles"][vid]["vehicle_type"]]
+        min_p = float(vt.get("min_charging_power", 0) or 0)
+        one_min_step = min_p * (full["meta"]["interval"] / 60.0) * float(vt.get("battery_efficiency", 0.95)) / float(vt["capacity"])
+        grd1 = (min_p > 0 and strat in ("greedy", "distributed") and 0 < m["desired"] - soc_dep <= one_min_step * (1 + 1e-9))
         if soc_dep < m["desired"] - 1e-4:
             if m.get("profile") in ("rising_load", "random_load"):
                 cls = cls + "_headroom_" + m["profile"]
-            viol.append(("service", "C09:desired_soc_missed:%s:%s:%s" % (strat, cls, tight),
+            viol.append(("service", "C09:desired_soc_missed:%s:needed_power_below_min_charging_power" % strat if grd1
+                         else "C09:desired_soc_missed:%s:%s:%s" % (strat, cls, tight),
                          "%s left at step %d with %.6f < desired %.4f (needed %d steps, stood %d, f=%s)"
                          % (vid, dep_t, soc_dep, m["desired"], m["need"], m["stand"], m["f"])))
         if strat == "greedy":
             k = dep_t - m["arrive_step"]
             reach = m["traj"][min(k, len(m["traj"]) - 1)]
             if soc_dep < min(m["desired"], reach) - 1e-4:
-                viol.append(("greedy_bound", "C09:greedy_below_full_power_trajectory",
+                viol.append(("greedy_bound", "C09:greedy_below_full_power_trajectory"
+                             + (":needed_power_below_min_charging_power" if grd1 else ""),
                              "%s: %.6f < min(desired %.4f, reachable %.6f) after %d steps"
                              % (vid, soc_dep, m["desired"], reach, k)))
         stats.append(cls)
         stats.append("f=%s" % m["f"])
     nontrivial = any(m["need"] >= 2 for m in mv.values())
-    return {"lines": tie_lines, "impl": tie_impl, "violations": viol, "nontrivial": nontrivial, "stats": stats,
-            "replay_case": full}
+    run_lines, run_impl, run_stats, run_num = runtie(r)
+    return {"lines": tie_lines + run_lines, "impl": tie_impl + run_impl, "violations": viol, "nontrivial": nontrivial,
+            "stats": stats + run_stats, "num": run_num, "replay_case": full}
 
 
 def compare(case, impl, model):
